@@ -403,6 +403,17 @@ class HostNode(Node, discriminator="host-node"):
         """
         super().receive_frame(frame, from_network_interface)
 
+        # A host does not forward: a unicast frame that reached this NIC's MAC address but is addressed, at the IP
+        # layer, to another node (e.g. sent by a host that uses this host as its default gateway) is not for our software
+        if frame.ip and not frame.is_broadcast:
+            own_addresses = set()
+            for network_interface in self.network_interfaces.values():
+                own_addresses.add(network_interface.ip_address)
+                own_addresses.add(network_interface.ip_network.broadcast_address)
+            if frame.ip.dst_ip_address not in own_addresses:
+                self.sys_log.info(f"Ignoring frame for {frame.ip.dst_ip_address} as it is not addressed to this host")
+                return
+
         # Check if the destination port is open on the Node
         dst_port = None
         if frame.tcp:
